@@ -11,7 +11,7 @@ import itertools
 from fractions import Fraction as F
 from . import core, pbx
 from .pbx import fr
-from .c02 import impl_public
+from .c02 import impl_public, recheck_kept
 
 
 def impl_raw(rule, op, x, y):
@@ -93,6 +93,16 @@ def gen_cases(ctx):
         if op == "div" and sy in ("str", None, "pos0", "neg0"):
             sy = rng.choice(["pos", "neg"])
         cases.append(("public-int", dep, op, pbx.int_box200(rng, sx), pbx.int_box200(rng, sy)))
+    # integer-dtype bounds (Staircase(left=[ints], …), pba.min_max(2, 5)): integer reciprocals / truncation
+    for _ in range(ctx.scale(18, 400)):
+        op = rng.choice(["div", "div", "mul", "add", "sub"])
+        dep = rng.choice(["p", "o", "i"])
+        sx, sy = rng.choice(signs), rng.choice(["pos", "neg"])
+        cases.append(("public-intdtype", dep, op, pbx.int_box200(rng, sx), pbx.int_box200(rng, sy)))
+    # the same call repeated with divisors that are created and dropped (memoisation keyed by id(), address reuse)
+    xfix = pbx.int_box200(rng, "pos")
+    for _ in range(ctx.scale(30, 300)):
+        cases.append(("public-reuse", rng.choice(["p", "o"]), "div", xfix, pbx.int_box200(rng, rng.choice(["pos", "neg"]))))
     for _ in range(ctx.scale(20, 500)):
         op = rng.choice(["add", "sub", "mul", "div"])
         dep = rng.choice(["p", "o", "i"])
@@ -130,8 +140,8 @@ def run(ctx: core.Check):
         ctx.bump(f"dep:{rule[0]}")
         ctx.bump("signs:" + pbx.sign_class(*x)[:3] + "x" + pbx.sign_class(*y)[:3])
         public = stream.startswith("public")
-        exact = (not public) or (stream == "public-int" and op != "div")
-        impl = impl_public(op, rule, x, y, bare=False) if public else impl_raw(rule, op, x, y)
+        exact = (not public) or (stream in ("public-int", "public-intdtype", "public-reuse") and op != "div")
+        impl = impl_public(op, rule, x, y, bare=False, int_dtype=(stream == "public-intdtype")) if public else impl_raw(rule, op, x, y)
         model = pbx.parse_reply(rep)
         if pbx.same(impl, model, exact):
             ctx.tie_ok()
@@ -160,3 +170,4 @@ def run(ctx: core.Check):
         if w is not None:
             ctx.fail({**feat, "check": w["why"], "symptom": "random-set-mismatch"}, {**case, "witness": w},
                      f"{op} under {rule}: result step {w.get('step')} ({w['why']}) is {w.get('reported')}, random-set value {w.get('random_set', w.get('block'))}")
+    recheck_kept(ctx, "C03")
